@@ -653,7 +653,7 @@ func (e *termEval) defsTerm(l loc, ds defset, at ssa.Instruction, fr *frame) *Te
 				// a zero stored over a location that a Scan had filled: the row's value is forgotten
 				if before := e.m.reaching(d.store.Parent()).at[d.store]; before != nil {
 					for _, d2 := range before[l] {
-						if d2.kind == dScan {
+						if d2.kind == dScan && !e.m.storeBehindScanFailure(d.store, d2.scan) {
 							st = &Term{Kind: "zero", Name: "reset"}
 						}
 					}
@@ -1350,7 +1350,28 @@ func (m *Model) isFailureReturn(ret *ssa.Return) bool {
 		}
 		if !origins[stripConv(other)] && !origins[other] {
 			ld, isLd := stripConv(other).(*ssa.UnOp)
-			if !isLd || cell == nil || ld.Op != token.MUL || ld.X != ssa.Value(cell) {
+			if !isLd || ld.Op != token.MUL {
+				continue
+			}
+			// another load of the cell the returned error (or the error handed to its translator)
+			// was loaded from, with no store to the cell in between
+			sameCell := cell != nil && ld.X == ssa.Value(cell)
+			for o := range origins {
+				if ol, ok := o.(*ssa.UnOp); ok && ol.Op == token.MUL && ol.X == ld.X {
+					if al, ok := ld.X.(*ssa.Alloc); ok {
+						clean := true
+						for _, st := range cellStores(al) {
+							if forwardReachable(ld, st) && forwardReachable(st, ol) {
+								clean = false
+							}
+						}
+						if clean {
+							sameCell = true
+						}
+					}
+				}
+			}
+			if !sameCell {
 				continue
 			}
 		}
@@ -1574,4 +1595,55 @@ func (m *Model) paramFieldWrites(fn *ssa.Function, pi int, depth int) []int {
 	}
 	sort.Ints(out)
 	return out
+}
+
+// storeBehindScanFailure: the store executes only where the Scan's own error was found to be
+// sql.ErrNoRows or non-nil, i.e. where the Scan filled nothing: a zero stored there ("no row:
+// answer zeros") forgets nothing.
+func (m *Model) storeBehindScanFailure(st *ssa.Store, sc *scanCall) bool {
+	if sc == nil || sc.Call == nil || st.Parent() != sc.Call.Parent() {
+		return false
+	}
+	errV := sc.Call.Value()
+	if errV == nil {
+		return false
+	}
+	fn := st.Parent()
+	c := newCut()
+	n := 0
+	for _, iff := range allIfs(fn) {
+		cd := condOf(iff)
+		eq, ok := cd.equalEdge()
+		if !ok {
+			continue
+		}
+		x, y := stripConv(cd.X), stripConv(cd.Y)
+		var other ssa.Value
+		if x == ssa.Value(errV) {
+			other = y
+		} else if y == ssa.Value(errV) {
+			other = x
+		} else {
+			continue
+		}
+		isNoRows := false
+		if ld, ok := other.(*ssa.UnOp); ok && ld.Op == token.MUL {
+			if g, ok := ld.X.(*ssa.Global); ok && g.Name() == "ErrNoRows" {
+				isNoRows = true
+			}
+		}
+		switch {
+		case isNoRows:
+			c.cutEdge(iff.Block(), eq) // err == sql.ErrNoRows
+			n++
+		case isNilConst(other):
+			for _, sx := range iff.Block().Succs {
+				if sx != eq {
+					c.cutEdge(iff.Block(), sx) // err != nil
+					n++
+				}
+			}
+		}
+	}
+	return n > 0 && !reachableFromSuccs(sc.Call.Block(), c)[st.Block().Index] && st.Block() != sc.Call.Block()
 }
